@@ -64,6 +64,12 @@ func (vc *VC) mapComps(t types.Type) (mh, mv, ml string, mt *types.Map) {
 	mh, mv, ml = "MH$"+k, "MV$"+k, "ML$"+k
 	vc.compDecl(mh, arrSort(sortInt, arrSort(ks, sortBool)))
 	if kindOf(mt.Elem()) == KStruct {
+		if st, ok := mt.Elem().Underlying().(*types.Struct); ok && st.NumFields() == 0 {
+			// set idiom map[K]struct{}: the values carry no information
+			vc.compDecl(mv, arrSort(sortInt, arrSort(ks, sortInt)))
+			vc.compDecl(ml, arrSort(sortInt, sortInt))
+			return
+		}
 		panic(vcErrorf("maps with struct values are not supported (%s)", k))
 	}
 	vc.compDecl(mv, arrSort(sortInt, arrSort(ks, vc.scalarSort(mt.Elem()))))
